@@ -36,8 +36,9 @@ def write_cmap(maps, layout=None):
     for i in range(int(layout.get("comments", 0))):
         lines.append(f"# comment line {i} with a tab\tand text")
     lines.append("#h " + "\t".join(cols[k] for k in perm))
-    lines.append("#f " + "\t".join("int" if c in ("CMapId", "NumSites", "SiteID", "LabelChannel") else "float"
-                                   for c in (cols[k] for k in perm)))
+    if layout.get("f_line", True):        # the '#f' type line is customary, not required
+        lines.append("#f " + "\t".join("int" if c in ("CMapId", "NumSites", "SiteID", "LabelChannel") else "float"
+                                       for c in (cols[k] for k in perm)))
     fmt = (lambda v: str(int(v))) if layout.get("int_coords") else fnum
     per_mol = []
     for mi in order:
